@@ -105,29 +105,35 @@ fn program(pk: &str, pn: u64, why: &str, std: bool, v: u64) -> BTreeMap<String, 
                         format!("f1 :: fn do\n    x := (1 +\nend\n\nf2 :: fn do\n    y := ]\nend\n\nstart :: fn do\n{}    f1()\nend\n", head),
                     );
                 }
-                (_, 0) => {
-                    f.insert(
-                        "main.sy".into(),
-                        format!(
-                            "use sub\n\nf1 :: fn do\n    x := (1 +\nend\n\nf2 :: fn do\n    y := ]\nend\n\nstart :: fn do\n{}    f1()\n    sub.g()\nend\n",
-                            head
-                        ),
-                    );
-                    f.insert("sub.sy".into(), "g :: fn do\n    z := )\nend\n".into());
+                // many errors (around the 8-bit wrap of an exit status): one broken definition per line
+                (n, 0) => {
+                    let mut m = format!("start :: fn do\n{}end\n\n", head);
+                    for i in 0..n {
+                        m.push_str(&format!("x{} :: )\n", i));
+                    }
+                    f.insert("main.sy".into(), m);
                 }
-                (_, 1) => {
-                    f.insert(
-                        "main.sy".into(),
-                        format!("start :: fn do\n{}    a := c20_nope1\n    b := c20_nope2\n    c := c20_nope3\nend\n", head),
-                    );
+                (n, 1) => {
+                    // half of them in an imported file
+                    let mut m = format!("use sub\n\nstart :: fn do\n{}end\n\n", head);
+                    for i in 0..(n / 2) {
+                        m.push_str(&format!("x{} :: ]\n", i));
+                    }
+                    let mut sub = String::new();
+                    for i in (n / 2)..n {
+                        sub.push_str(&format!("y{} :: )\n", i));
+                    }
+                    f.insert("main.sy".into(), m);
+                    f.insert("sub.sy".into(), sub);
                 }
-                (_, _) => {
-                    f.insert(
-                        "main.sy".into(),
-                        format!("use sub\nuse sub2\n\nstart :: fn do\n{}    x := (1 +\nend\n", head),
-                    );
-                    f.insert("sub.sy".into(), "g :: fn do\n    z := )\nend\n".into());
-                    f.insert("sub2.sy".into(), "h :: fn do\n    w := ]\nend\n".into());
+                (n, _) => {
+                    // before the entry point, two kinds of breakage alternating
+                    let mut m = String::new();
+                    for i in 0..n {
+                        m.push_str(&if i % 2 == 0 { format!("x{} :: )\n", i) } else { format!("x{} :: fn do\n    z := ]\nend\n", i) });
+                    }
+                    m.push_str(&format!("\nstart :: fn do\n{}end\n", head));
+                    f.insert("main.sy".into(), m);
                 }
             }
         }
@@ -214,9 +220,8 @@ fn argv(cfg: &Value, spell: u64, idx: u64) -> (Vec<String>, String) {
     }
     let mut module = String::new();
     if req {
-        // (M is always spelled without a `.lua` suffix: what `--require M.lua` should emit is not part of the property)
-        let _ = rng.gen_bool(0.5);
-        let m = MODULE.to_string();
+        // how M is spelled is part of the configuration (SyltDriver!Mods)
+        let m = cfg["marg"].as_str().unwrap().to_string();
         module = m.clone();
         let g = match if spell == 0 { 0 } else { rng.gen_range(0..4) } {
             0 => vec!["--require".to_string(), m],
@@ -296,6 +301,19 @@ fn blocks(text: &str, names: &[String]) -> Vec<Value> {
     out
 }
 
+/// Raw facts about a list of error blocks: how many, a digest of the list, a digest of the sorted list (the bag),
+/// the files named, and the first few verbatim.
+fn block_facts(bl: &[Value]) -> Value {
+    let keys: Vec<String> = bl.iter().map(|b| format!("{}:{}", b["file"].as_str().unwrap_or(""), b["line"])).collect();
+    let mut sorted = keys.clone();
+    sorted.sort();
+    let mut files: Vec<String> = bl.iter().map(|b| b["file"].as_str().unwrap_or("").to_string()).collect();
+    files.sort();
+    files.dedup();
+    json!({"n": bl.len(), "seq": digest(keys.join(";").as_bytes()), "bag": digest(sorted.join(";").as_bytes()), "files": files,
+           "head": bl.iter().take(4).cloned().collect::<Vec<_>>()})
+}
+
 /// State of a path: absent | file (len, digest, common prefix with `reference`) | dir (digest of its listing)
 /// | noparent (the parent directory does not exist) | device (a character device such as /dev/full).
 fn path_fact(p: &Path, reference: &[u8]) -> Value {
@@ -329,8 +347,8 @@ fn path_fact(p: &Path, reference: &[u8]) -> Value {
     }
 }
 
-/// Occurrences of a `require` of MODULE in `s`: (start, end) byte offsets of `require "M"` / `require("M")` / `require 'M'`.
-fn require_sites(s: &str) -> Vec<(usize, usize)> {
+/// Occurrences of a `require` of a literal module in `s`: (start, end, name) for `require "M"` / `require("M")` / `require 'M'`.
+fn require_sites(s: &str) -> Vec<(usize, usize, String)> {
     let b = s.as_bytes();
     let mut out = Vec::new();
     let mut from = 0;
@@ -338,6 +356,9 @@ fn require_sites(s: &str) -> Vec<(usize, usize)> {
         let st = from + off;
         let mut i = st + "require".len();
         from = i;
+        if st > 0 && (b[st - 1].is_ascii_alphanumeric() || b[st - 1] == b'_') {
+            continue;
+        }
         while i < b.len() && (b[i] == b' ' || b[i] == b'\t') {
             i += 1;
         }
@@ -353,13 +374,14 @@ fn require_sites(s: &str) -> Vec<(usize, usize)> {
         }
         let q = b[i];
         i += 1;
-        if !s[i..].starts_with(MODULE) {
-            continue;
+        let name_at = i;
+        while i < b.len() && b[i] != q && b[i] != b'\n' {
+            i += 1;
         }
-        i += MODULE.len();
         if i >= b.len() || b[i] != q {
             continue;
         }
+        let name = s[name_at..i].to_string();
         i += 1;
         if paren {
             while i < b.len() && b[i] == b' ' {
@@ -371,7 +393,7 @@ fn require_sites(s: &str) -> Vec<(usize, usize)> {
                 continue;
             }
         }
-        out.push((st, i));
+        out.push((st, i, name));
     }
     out
 }
@@ -390,7 +412,7 @@ fn run_facts(text: &str) -> Value {
 /// Facts about an emitted program, wherever it went (chunk given to lua, stdout, FILE).
 fn emit_facts(bytes: &[u8], preamble: &str, wher: &str) -> Value {
     let none = json!({"present": false, "where": wher, "len": bytes.len(), "digest": digest(bytes), "pre_ok": false,
-                      "pre_digest": "", "n_req": 0, "n_req_pre": 0, "req_at": -1, "req_lead_blank": false,
+                      "pre_digest": "", "n_req": 0, "req_names": [], "n_req_pre": 0, "req_at": -1, "req_lead_blank": false,
                       "wo_req_digest": "", "run": {"status": "none", "out_len": 0, "out_digest": "", "requires": []}});
     if !bytes.starts_with(PRE_BEGIN.as_bytes()) {
         return none;
@@ -401,7 +423,7 @@ fn emit_facts(bytes: &[u8], preamble: &str, wher: &str) -> Value {
     let sites = require_sites(body);
     // the program without its (first) require statement: the site, an optional `;` and an optional line end are cut
     let (req_at, lead_blank, wo) = match sites.first() {
-        Some((s, e)) => {
+        Some((s, e, _)) => {
             let lead = &body[..*s];
             let lead_blank = lead.chars().all(|c| c.is_whitespace());
             let rest = &body[*e..];
@@ -415,7 +437,7 @@ fn emit_facts(bytes: &[u8], preamble: &str, wher: &str) -> Value {
     run.as_object_mut().unwrap().remove("out");
     json!({"present": true, "where": wher, "len": bytes.len(), "digest": digest(bytes),
            "pre_ok": pl > 0 && pre == preamble, "pre_digest": digest(pre.as_bytes()),
-           "n_req": sites.len(), "n_req_pre": require_sites(pre).len(), "req_at": req_at, "req_lead_blank": lead_blank,
+           "n_req": sites.len(), "req_names": sites.iter().map(|x| x.2.clone()).collect::<Vec<_>>(), "n_req_pre": require_sites(pre).len(), "req_at": req_at, "req_lead_blank": lead_blank,
            "wo_req_digest": digest(wo.as_bytes()), "run": run})
 }
 
@@ -423,13 +445,20 @@ fn emit_facts(bytes: &[u8], preamble: &str, wher: &str) -> Value {
 
 const SHIM: &str = "#!/bin/sh\n: > \"$C20_STARTED\"\nif [ $# -gt 0 ] && [ -f \"$1\" ]; then cat \"$1\" > \"$C20_CHUNK\"; else cat > \"$C20_CHUNK\"; fi\n\"$C20_LUA\" \"$C20_CHUNK\" 2> \"$C20_LUAERR\"\nrc=$?\ncat \"$C20_LUAERR\" >&2\n: > \"$C20_DONE\"\nexit $rc\n";
 
-fn old_content(idx: u64) -> String {
-    // sometimes shorter, sometimes longer than an emitted program
-    let lines = if idx % 2 == 0 { 3 } else { 1500 };
+/// Old content of an existing FILE: shorter than, exactly as long as, or longer than `n` bytes (the program to be written).
+fn old_content(class: &str, n: usize) -> String {
+    let want = match class {
+        "existing_shorter" => n.min(120).saturating_sub(1).max(1),
+        "existing_equal" => n.max(1),
+        _ => n + 3000,
+    };
     let mut s = String::new();
-    for i in 0..lines {
+    let mut i = 0;
+    while s.len() < want {
         s.push_str(&format!("-- old content of FILE, line {} (C20)\n", i));
+        i += 1;
     }
+    s.truncate(want);
     s
 }
 
@@ -484,8 +513,13 @@ fn apply_stub(
     target: &Path,
     preamble: &str,
     names: &[String],
+    old: &str,
 ) -> bool {
-    let site = format!("require \"{}\"", MODULE);
+    // the first require statement of an emitted program: (start, end, module)
+    let first_req = |t: &str| -> Option<(usize, usize, String)> {
+        let pl = prelude_len(t);
+        require_sites(&t[pl..]).into_iter().next().map(|(a, b, n)| (pl + a, pl + b, n))
+    };
     // the emitted program lives in FILE or on stdout (the chunk of run mode has been executed already)
     let edit_emitted = |f: &dyn Fn(&str) -> Option<String>, so: &mut Vec<u8>| -> bool {
         let cur = match mode {
@@ -574,10 +608,29 @@ fn apply_stub(
         // -o -
         "newline" => edit_emitted(&|t: &str| if mode == "stdout" { Some(format!("{}\n", t)) } else { None }, so),
         // --require
-        "req2" => edit_emitted(&|t: &str| t.find(&site).map(|i| format!("{}{}\n{}", &t[..i], site, &t[i..])), so),
-        "req0" => edit_emitted(&|t: &str| t.find(&site).map(|i| format!("{}{}", &t[..i], &t[i + site.len()..])), so),
-        "req-late" => edit_emitted(&|t: &str| t.find(&site).map(|i| format!("{}{}\n{}\n", &t[..i], &t[i + site.len()..], site)), so),
-        "req-other" => edit_emitted(&|t: &str| t.find(&site).map(|i| format!("{}require \"c20other\"{}", &t[..i], &t[i + site.len()..])), so),
+        "req2" => edit_emitted(&|t: &str| first_req(t).map(|(a, b, _)| format!("{}{}\n{}", &t[..a], &t[a..b], &t[a..])), so),
+        "req0" => edit_emitted(&|t: &str| first_req(t).map(|(a, b, _)| format!("{}{}", &t[..a], &t[b..])), so),
+        "req-late" => edit_emitted(&|t: &str| first_req(t).map(|(a, b, _)| format!("{}{}\n{}\n", &t[..a], &t[b..], &t[a..b])), so),
+        "req-other" => edit_emitted(&|t: &str| first_req(t).map(|(a, b, _)| format!("{}require \"c20other\"{}", &t[..a], &t[b..])), so),
+        // a dotted module name loses what follows its last dot (as `Path::with_extension("")` would do)
+        "req-stem" => edit_emitted(
+            &|t: &str| {
+                first_req(t).and_then(|(a, b, n)| n.rfind('.').map(|d| format!("{}require \"{}\"{}", &t[..a], &n[..d], &t[b..])))
+            },
+            so,
+        ),
+        // FILE opened without truncation: what the old content had beyond the new program is still there
+        "keep-tail" => edit_emitted(
+            &|t: &str| if mode == "file" && old.len() > t.len() { Some(format!("{}{}", t, &old[t.len()..])) } else { None },
+            so,
+        ),
+        // the exit status carries the number of errors, 8 bits of it
+        "exit-count" => {
+            let n = blocks(&String::from_utf8_lossy(so), names).len() + blocks(&String::from_utf8_lossy(se), names).len();
+            let ok = *exit != 0 && n > 0;
+            *exit = (n % 256) as i64;
+            ok
+        }
         // --no-std: the emitted program behaves differently
         "nostd" => edit_emitted(&|t: &str| Some(format!("{}\nprint(\"c20 --no-std\")\n", t)), so),
         // run mode: the program was never executed
@@ -632,8 +685,9 @@ fn run_case(case: &Value, sylt: &str, lua: &str, scratch: &Path, shimdir: &Path,
     std::fs::write(dir.join(format!("{}.lua", MODULE)), "c20mod_loaded = true\n").unwrap();
     let t = target_of(mode, path);
     let target: PathBuf = dir.join(if mode == "file" { t.file.as_str() } else { "out.lua" });
+    let old = if path.starts_with("existing") { old_content(path, lua_like.len()) } else { String::new() };
     match path {
-        "existing" => std::fs::write(&target, old_content(idx)).unwrap(),
+        "existing_shorter" | "existing_equal" | "existing_longer" => std::fs::write(&target, &old).unwrap(),
         "is_directory" => {
             std::fs::create_dir_all(&target).unwrap();
             std::fs::write(target.join("keep.txt"), "keep\n").unwrap();
@@ -693,7 +747,7 @@ fn run_case(case: &Value, sylt: &str, lua: &str, scratch: &Path, shimdir: &Path,
     }
     let mut so = std::fs::read(&so_p).unwrap_or_default();
     let mut se = std::fs::read(&se_p).unwrap_or_default();
-    let stub_applied = if stub.is_empty() { false } else { apply_stub(&stub, mode, &mut exit, &mut so, &mut se, &target, preamble, &names) };
+    let stub_applied = if stub.is_empty() { false } else { apply_stub(&stub, mode, &mut exit, &mut so, &mut se, &target, preamble, &names, &old) };
     let so_text = String::from_utf8_lossy(&so).to_string();
     let se_text = String::from_utf8_lossy(&se).to_string();
     let chunk = std::fs::read(&chunk_p).unwrap_or_default();
@@ -729,12 +783,12 @@ fn run_case(case: &Value, sylt: &str, lua: &str, scratch: &Path, shimdir: &Path,
                "text": se_text.chars().take(400).collect::<String>()},
         "so": {"len": so.len(), "digest": digest(&so), "lcp_lua": lcp(&so, lua_like), "lcp_out": lcp(&so, ref_out.as_bytes()), "has_out": has_out,
                "markers": count_sub(&so_text, "-- End Sylt preamble"), "head": strip_ansi(&so_text).chars().take(300).collect::<String>()},
-        "blocks": all_blocks,
+        "blocks": block_facts(&all_blocks),
         "lua": {"started": lua_started, "chunk_len": chunk.len(), "chunk_digest": digest(&chunk),
                 "chunk_lcp": lcp(&chunk, lua_like), "err_len": luaerr.len(), "msg_printed": lua_msg_printed},
-        "before": before, "after": after, "extra_files": extra.len(), "sources_intact": sources_intact,
+        "old_len": old.len(), "before": before, "after": after, "extra_files": extra.len(), "sources_intact": sources_intact,
         "ref": {"class": ref_class, "lua_len": ref_lua.len(), "lua_digest": digest(ref_lua.as_bytes()),
-                "errors": ref_errors, "blocks": ref_blocks, "run": {"status": ref_run["status"], "out_len": ref_run["out_len"],
+                "nerrors": ref_errors.len(), "errors_head": ref_errors.iter().take(4).cloned().collect::<Vec<_>>(), "blocks": block_facts(&ref_blocks), "run": {"status": ref_run["status"], "out_len": ref_run["out_len"],
                 "out_digest": ref_run["out_digest"], "requires": ref_run["requires"]}},
         "emit": emit,
     })
